@@ -654,7 +654,8 @@ def contracts(tier):
                                     'of ddsmt/*.py and bin/ddsmt']))
     cs += list(c08.scanner_contracts(tier)) + traversals.contracts(tier) + \
         writers.contracts(tier) + rebuild.contracts(tier) + \
-        rebuild.reduplicate_contracts(tier)
+        rebuild.reduplicate_contracts(tier) + \
+        rebuild.substitute_contracts(tier)
     for th in ('arithmetic', 'bv', 'datatypes', 'fp', 'strings'):
         cs.append(
             Contract(f'C04/mutators_{th}.is_relevant',
